@@ -97,6 +97,9 @@ def run(tier, seed, replay):
         "integers are sent in seeded spellings (3, 3.0, 3e0, 30e-1) and member orders",
     ]
     out = vlib.outdir(PID)
+    for f in os.listdir(out):  # violation files of earlier runs would be mistaken for this run's
+        if f.startswith("violation-") and not (replay and os.path.join(out, f) == os.path.abspath(replay)):
+            os.remove(os.path.join(out, f))
     wd = vlib.scratch("tlc-")
     res = vlib.run_tlc("TypedTool", "TypedTool.cfg", workdir=wd, workers=1, timeout=900, heap_gb=4)
     vlib.tlc_must_pass(res, "TypedTool")
@@ -194,6 +197,7 @@ def run(tier, seed, replay):
     for f in fails:
         failed_lines.setdefault(f["line"], []).append(f["monfail"])
     leads_reproduced = 0
+    found = []
     for line, invs in sorted(failed_lines.items()):
         e = rows[line - 1]
         c, o = e["c"], e["o"]
@@ -209,7 +213,15 @@ def run(tier, seed, replay):
             continue
         if c["kind"] == "out" and c.get("lead"):
             leads_reproduced += 1
-        v.violation(sig, "real typed-tool outcome violates %s" % ",".join(sorted(props)), e)
+        found.append((",".join(sorted(props)), sig, e))
+    # report one representative of every violated predicate set first (vlib prints the first dozen)
+    firsts, later, seen_props = [], [], set()
+    for props, sig, e in found:
+        (later if props in seen_props else firsts).append((props, sig, e))
+        seen_props.add(props)
+    for props, sig, e in firsts + later:
+        v.violation(sig, "real typed-tool outcome violates %s" % props, e)
+    v.cov["violated_predicates"] = sorted(seen_props)
     # a lead of the design model that the real code does not reproduce means the model's ExpectedOut is
     # no longer the code's behaviour there; it then shows up as drift on those lines (reported above).
     v.cov["design_leads"] = {"cases_run": leads_seen, "reproduced_on_real_code": leads_reproduced}
